@@ -33,7 +33,7 @@ package main
 // of its own: one that did not exist before the call and that nothing else holds.
 //@ contract listProxyVersions
 //@   ensures result1 == nil && !in(modulePath, versionsForTesting) ==> fresh(result0)
-//@   modifies heap
+//@   modifies nothing
 
 // generate: each record's counter expression goes under its own program, as a
 // stack exactly when it has a positive depth and as a counter otherwise, with
